@@ -21,12 +21,12 @@ PROP = dict(
     nontrivial=_nontrivial,
     min_nontrivial=10,
     rule="seeded histories of 25-55 UpdatePeer/GetPeers/clock-advance calls on a real RedisStore (mock clock) against an "
-         "in-process Redis (miniredis, time kept in step): 5 peer ids, 2 torrents, IPv4 / host-name addresses (bulk) and "
-         "IPv6 full/compressed/zoned/v4-mapped addresses (dedicated histories), 4 ports, both completion flags, window "
+         "in-process Redis (miniredis, time kept in step): 5 peer ids, 2 torrents, IPv4 / host-name addresses and "
+         "IPv6 full/compressed/zoned/v4-mapped addresses in every history, 4 ports, both completion flags, window "
          "sizes 2/3/10 x 1..3 windows, n in {-1,0,1,2,3,50}; plus serializePeer->deserializePeer alone over host names and "
          "over every address of 1..8 tokens (0..7 colons); non-trivial = a lookup returned >= 2 peers and time passed "
          "(or the codec enumeration)",
     assumptions=["Redis is miniredis v2.5.0 (SADD, EXPIREAT, SRANDMEMBER count); its clock is driven by the harness",
-                 "only histories with cfg.v6=true announce addresses containing ':' (known finding F28)",
+                 "F28 (IPv6 peers dropped) was repaired in /repo 3bed7ac; every store history announces IPv6 addresses",
                  "the member codec is reached through an export-only overlay shim"],
 )
